@@ -125,7 +125,39 @@ def r09_4(ctx):
     ctx.floor("R09.4", "sink-calls", n, 2)
 
 
+def r09_5(ctx):
+    """the HTML tree builder forwards the token's line to the sink before anything that can call the sink"""
+    import re
+    from . import nfq
+    key, pcs = nfq.cells(ctx, "html_tree_builder", "TreeBuilder<Handle,Sink>[TokenSink]::process_token")
+    pcs = nfq.feasible(pcs)
+    n = 0
+    same = re.compile(r"\(?(p2 (==|!=) self\.current_line\.get\(\)|self\.current_line\.get\(\) (==|!=) p2)\)?")
+    for pc in pcs:
+        acts = [(a, [str(x) for x in args]) for a, args in pc["actions"]]
+        reach = [i for i, (a, args) in enumerate(acts) if (a.startswith("self.sink.") and a != "self.sink.set_current_line") or re.fullmatch(r"self\.[a-z_0-9]+", a)]
+        if not reach:
+            continue
+        n += 1
+        fwd = [i for i, (a, args) in enumerate(acts) if a == "self.sink.set_current_line" and args == ["p2"]]
+        unchanged = False
+        for g, v in pc["guards"].items():
+            m = same.fullmatch(g)
+            if m:
+                op = m.group(2) or m.group(3)
+                unchanged = (op == "!=" and v is False) or (op == "==" and v is True)
+        ok = bool(fwd and fwd[0] < reach[0]) or unchanged
+        first = acts[reach[0]][0]
+        kinds = sorted(g for g, v in pc["guards"].items() if v and g.startswith("p1 matches "))
+        ctx.ob("R09.5", "line-forwarded-before/%s/%s" % (first, ",".join(kinds)[:80]), ok,
+               "set_current_line(line_number) precedes it, or the line is unchanged" if ok else "%s runs on a path where the token's line number was not forwarded to the sink first" % first,
+               "html5ever/src/tree_builder/mod.rs process_token")
+    ctx.floor("R09.5", "sink-reaching-paths", n, 20)
+
+
 def run(ctx):
+    ctx.rule("R09.5", "TreeBuilder::process_token forwards the token's line (set_current_line) before any call that can reach the sink, on every path")
+    ctx.guard("R09.5", "forward", lambda: r09_5(ctx))
     ctx.rule("R09.1", "raw consumption primitives of the input are called only from the reviewed wrapper roles")
     ctx.rule("R09.2", "current_line is written only in get_preprocessed_char (+1 on exactly CR/LF) and the SIMD scan")
     ctx.rule("R09.3", "no peek/discard_char path discards a line break uncounted; every fast-path set contains CR and LF")
